@@ -28,7 +28,8 @@ Inductive mcase :=
 | CSlotToEpoch (spe s : N) (go : N)
 | CMinMax (a b : N) (gomin gomax : N)
 | CMerkle (leaf : bytes) (branch : list bytes) (depth index : N) (root : bytes) (go : gores bool)
-| CSha (msg : bytes) (go : bytes).
+| CSha (msg : bytes) (go : bytes)
+| CXor (a b : bytes) (go : bytes).
 
 (* impl_ok: Go agrees with the implementation model. *)
 Definition impl_ok (c : mcase) : bool :=
@@ -48,6 +49,7 @@ Definition impl_ok (c : mcase) : bool :=
   | CMinMax a b gmin gmax => (N.min a b =? gmin) && (N.max a b =? gmax)
   | CMerkle leaf br d i root go => agree Bool.eqb (verify_merkle_branch sha256 sha_cat bytes_eqb leaf br d i root) go
   | CSha msg go => bytes_eqb (sha256 msg) go
+  | CXor a b go => bytes_eqb (xor_bytes a b) go
   end.
 
 Definition is_pow2_spec (n : N) : bool := (0 <? n) && (2 ^ N.log2 n =? n).
@@ -76,6 +78,7 @@ Definition spec_ok (c : mcase) : bool :=
            | _ => false end
       else true
   | CSha msg go => bytes_eqb (sha256 msg) go
+  | CXor a b go => Nat.eqb (length go) (length a) && forallb (fun i => N.lxor (nth i a 0) (nth i b 0) =? nth i go 0) (seq 0 (length a))
   end.
 
 Fixpoint mism (i : N) (cs : list mcase) : list (N * N) :=
